@@ -209,6 +209,19 @@ def zero_length_fields(data, L, enc):
         yield 'zero_length:DE%d' % bit, data[:a] + ('0' * w).encode(enc) + data[end:]
 
 
+def hex_bitmap_spellings(data, hex_bitmap):
+    """Bitmap texts that a number parser tolerates but that are not 32 hex digits: 0x / 0X prefixes, signs, blanks, underscores."""
+    if not hex_bitmap or len(data) < 36:
+        return
+    for pos, words in ((4, (b'0x', b'0X', b'0b', b'0o', b'+f', b'-0', b' f', b'  ', b'0_', b'_0')), (34, (b'f ', b'_f', b'f_', b'\n0', b'0\n'))):
+        for wd in words:
+            if data[pos:pos + 2] != wd:
+                yield 'hexbitmap@%d=%r' % (pos - 4, wd.decode('latin_1')), data[:pos] + wd + data[pos + 2:]
+    for pos in (5, 19, 20, 35):
+        for ch in (b'_', b' ', b'x', b'+'):
+            yield 'hexbitmap@%d=%r' % (pos - 4, ch.decode()), data[:pos] + ch + data[pos + 1:]
+
+
 def edge_trims(data):
     for k in (1, 2, 3):
         yield 'truncate-%d' % k, data[:-k]
@@ -256,3 +269,33 @@ def constructed_overlaps(cfg, enc, hex_bitmap, mti='1240'):
                     present = [x for x in (p, e, f) if x]
                     yield ('overlap:DE%d%s->DE%d:%s' % (e, '(after DE%d)' % p if p else '', f, word),
                            mti.encode(enc) + bitmap_for(present, hex_bitmap) + body)
+
+
+WORDS = ('NaN', 'nan', 'sNaN', '-NaN', 'Inf', '-Inf', 'Infinity', 'inf', '1E+9', '1E+99999', '1e-9999999', '-0', '+1', '1_0', ' 1', '1 ', '0x10',
+         '1,5', '1.5.', '..', '--', '1e', 'e1', '٣', '0' * 40, '9' * 40, '000000', '999999', '240229', '240230', '241301', '000000000000',
+         '999999999999', '991231235960', '')
+
+
+def typed_content_words(data, L, cfg, enc):
+    """
+    The CONTENT of every typed element (int, long, decimal, datetime) replaced by words that number / date parsers treat
+    specially: NaN, Infinity, exponents, signs, separators, impossible dates.  Length prefixes are rewritten to match, so
+    the framing stays intact and the word reaches the conversion.
+    """
+    for bit, a, end in L.fields:
+        c = cfg[str(bit)]
+        if c.get('field_python_type') not in ('int', 'long', 'decimal', 'datetime'):
+            continue
+        w = 0 if c['field_type'] == 'FIXED' else (2 if c['field_type'] == 'LLVAR' else 3)
+        width = end - a - w
+        for word in WORDS:
+            try:
+                raw = word.encode(enc)
+            except UnicodeError:
+                continue
+            if w == 0:
+                for variant in (raw[:width].ljust(width, b' '.decode('ascii').encode(enc)), raw[:width].rjust(width, '0'.encode(enc))):
+                    if len(variant) == width:
+                        yield 'typed:DE%d:=%r' % (bit, word[:12]), data[:a] + variant + data[end:]
+            elif len(raw) < 10 ** w:
+                yield 'typed:DE%d:=%r' % (bit, word[:12]), data[:a] + ('%0*d' % (w, len(raw))).encode(enc) + raw + data[end:]
